@@ -33,7 +33,7 @@ LEVEL_NOTE = ("Trusted: Coq kernel + vm_compute; the hand-written models of the 
               "(array dtype inference for homogeneous Python lists and int/float/bool mixes, scalar conversions, ==/!= promotion, unique's order), "
               "validated by correspondence, not verified. Outside the model (generators stay inside): text mixed with numbers in one list, "
               "integers outside int64 in the data, NUL characters in text, lower-case non-ASCII letters under 'upper'. "
-              "Partial: totality and exactness of sparse materialize carry guards (findings F-C09-2, F-C09-3, F-C09-4, each with a _refuted witness); "
+              "Partial: totality of the sparse constructor and exactness of its default test carry guards (known findings F-C09-3, F-C09-4, F-C09-5, each with a _refuted witness); "
               "'equal to the default' is Python/NumPy ==, so -0.0 stored under default 0.0 comes back as 0.0 and 1.0 under default 1 as the data's own kind. "
               "No axioms (Print Assumptions: closed).")
 DESIGN_REF = "DESIGN.md section 8, C09"
@@ -396,40 +396,60 @@ def _is_int(x):
     return isinstance(x, int) and not isinstance(x, bool)
 
 
-def known(case, obs):
+def _finding_class(case):
+    """(finding id, predicate hit(element)) when the INPUT lies in the class of a known finding, else (None, None).
+    hit(v): NumPy's `values != default` calls v equal to the default although v is not the default (other value or type)."""
     if case["col"] != "sparse":
-        return None
+        return None, None
     values = [dec(v) for v in case["values"]]
     d = dec(case["default"])
     k0 = _np_kind(values)
     # F-C09-3: the constructor's `numpy.array(values) != default` raises (Python int not convertible to the array's C type)
     if k0 == "b" and _is_int(d) and not (I64[0] <= d <= I64[1]):
-        return "F-C09-3"
+        return "F-C09-3", None
     if k0 == "f" and _is_int(d):
         try:
             float(d)
         except OverflowError:
-            return "F-C09-3"
-    # F-C09-4: int64 data compared with a float default in binary64: an element that only ROUNDS to the default is dropped
+            return "F-C09-3", None
+    hit = fid = None
     if k0 == "i" and isinstance(d, float) and d == d and abs(d) != INF:
-        if any(v != d and float(v) == d for v in values):
-            return "F-C09-4"
-    if k0 == "f" and _is_int(d) and not (I64[0] <= d < 2 ** 64):
-        if any(isinstance(v, float) and v == v and abs(v) != INF and v == float(d) for v in values):
-            return "F-C09-4"  # same comparison, other side: a float equal to the ROUNDED default comes back as the (object) int default
-    # F-C09-5: nullable (object) data, default of another numeric kind: an element that merely EQUALS the default
-    # (0 == False, 1 == 1.0) is dropped and comes back as the default's type
-    if k0 == "O" and d is not None and not isinstance(d, str) and not _mixed(values):
-        if any(v is not None and not isinstance(v, str) and v == d and type(v) is not type(d) for v in values):
-            return "F-C09-5"
-    # F-C09-2: materialize converts the default to the data's scalar type to test it, and that conversion raises
-    k = _np_kind(values, case.get("fn"))
-    if k == "i":
-        if isinstance(d, float) and (d != d or abs(d) == INF or not (I64[0] <= int(d) <= I64[1])):
-            return "F-C09-2"
-        if _is_int(d) and 2 ** 63 <= d < 2 ** 64:
-            return "F-C09-2"
-    return None
+        # F-C09-4: int64 data against a float default is compared in binary64
+        fid, hit = "F-C09-4", (lambda v: v != d and float(v) == d)
+    elif k0 == "f" and _is_int(d) and not (I64[0] <= d < 2 ** 64):
+        # F-C09-4, other side: float data against an int default beyond 64 bits (object default, compared after rounding)
+        fid, hit = "F-C09-4", (lambda v: isinstance(v, float) and v == v and abs(v) != INF and v == float(d))
+    elif k0 == "O" and d is not None and not isinstance(d, str) and not _mixed(values):
+        # F-C09-5: nullable (object) data, default of another numeric kind (0 == False, 1 == 1.0)
+        fid, hit = "F-C09-5", (lambda v: v is not None and not isinstance(v, str) and v == d and type(v) is not type(d))
+    if fid is None or not any(hit(v) for v in values):
+        return None, None
+    return fid, hit
+
+
+def known(case, obs):
+    """A case is excused only if its input is in the class of a known finding AND the implementation misbehaves in
+    exactly the known way; anything else it does on such an input is judged (and sent to Coq) like any other case."""
+    fid, hit = _finding_class(case)
+    if fid is None:
+        return None
+    if fid == "F-C09-3":
+        return fid if obs.get("raise") == "OverflowError" and obs.get("stage") == "init" else None
+    if oracle(case, obs) is None:
+        return None
+    # the known misbehaviour: the colliding elements are treated as the default, nothing else is wrong
+    d = dec(case["default"])
+    patched = dict(case, values=[enc(d) if hit(dec(v)) else v for v in case["values"]])
+    return fid if oracle(patched, obs) is None else None
+
+
+def known_still_fails(fid, witness):
+    obs = observe(witness)
+    if known(witness, obs) != fid:
+        return None
+    if fid == "F-C09-3":
+        return "constructor raised OverflowError"
+    return oracle(witness, obs)
 
 
 def _sparse(values, default, fn=None):
@@ -437,7 +457,6 @@ def _sparse(values, default, fn=None):
 
 
 KNOWN_WITNESSES = {
-    "F-C09-2": _sparse([1, 2, 3], NAN),
     "F-C09-3": _sparse([True, False], 2 ** 70),
     "F-C09-4": _sparse([2 ** 53 + 1, 7], 2.0 ** 53),
     "F-C09-5": _sparse([None, 0, None], False),
@@ -523,6 +542,17 @@ def corpus():
     # the first prototype of the repair turned int data into floats under a float default
     yield _sparse([1, 2, 0], 0.0)
     yield _sparse([1, 2, 3], 0.5)
+    # F-C09-2 (fixed by cf4ef68): a default without a counterpart in the values' type made materialize raise
+    for d in (NAN, INF, -INF, 1e30, -1e30, 2.0 ** 63, 2 ** 63, 2 ** 64 - 1):
+        yield _sparse([1, 2, 3], d)
+    yield _sparse([True, False, True], NAN, "mul2")
+    yield _sparse([1, 2], 2.0 ** 63, "add1")
+    # witnesses of the known findings and their other-side variants (judged normally if they stop misbehaving as known)
+    for w in KNOWN_WITNESSES.values():
+        yield w
+    yield _sparse([1.5], 2 ** 1024)
+    yield _sparse([1e30, 2.5], 10 ** 30)
+    yield _sparse([None, -(2 ** 63)], -(2.0 ** 63))
     # the shipped tests
     yield _sparse(["31", None, "31", None, None, "31", "30", "31", None], None)
     yield _sparse([1, None, 2, None, None, 3, 4, 5, None], None, "mul2")
